@@ -29,8 +29,13 @@ def run(tier, seed):
     t = C.Timer()
     binary = C.require_build("fmtsim")
     out = os.path.join(C.build_root(), "fmtsim-result-%s.json" % tier)
-    p = subprocess.run([binary, "run", "--seed", str(seed), "--tier", tier, "--threads", str(C.jobs()), "--out", out],
-                       stdout=subprocess.PIPE, stderr=subprocess.STDOUT, text=True)
+    try:
+        p = subprocess.run([binary, "run", "--seed", str(seed), "--tier", tier, "--threads", str(C.jobs()), "--out", out],
+                           stdout=subprocess.PIPE, stderr=subprocess.STDOUT, text=True, timeout={"quick": 1800, "thorough": 14400}[tier])
+    except subprocess.TimeoutExpired:
+        # a retry loop under a fault is caught inside the simulator by the step cap; a display call that never returns and never
+        # writes cannot be interrupted in-process. Reported as a harness error with the budget, not as a violation.
+        raise C.HarnessError("fmtsim did not finish within its wall-clock budget (normal: seconds to minutes)")
     if p.returncode != 0:
         raise C.HarnessError("fmtsim run failed (%d):\n%s" % (p.returncode, p.stdout[-2000:]))
     r = json.load(open(out))
